@@ -239,7 +239,9 @@ def scan_runs(ctx, L, table="_snd_buffer", unroll=1):
     it = ev.expr(loop.iter)
     ev.uid += 1
     ev._bind_target(loop.target, ("iter", it, ev.uid))
-    rs = [r for r in runs_of(ctx.prog, L.job, unroll=unroll, body=loop.body, evalr=ev) if not contradictory(r)]
+    rs = [r for r in runs_of(ctx.prog, L.job, unroll=unroll, body=loop.body, evalr=ev) if not contradictory(r) and r.term != "cut"]
+    # (paths of `while True` loops that do not leave within the unrolling bound are cut: the scan rules are about what
+    #  has happened when the iteration ends, which such a path prefix does not show)
     cache[key] = rs
     return rs
 
@@ -560,19 +562,20 @@ def bam_pace(ctx, L, rule="R-BAM-PACE"):
                  if any(p and g[0] == "cmp" and g[1] == "==" and ("c", sending) in (g[2], g[3]) for g, p in lits(r.guards(i)))]
         if not sends:
             continue
-        for j, rec in enumerate(r.recs):
-            if rec.cond is not None and (mk_cmp("==", CMI, ("c", None)), False) in lits([(rec.cond, rec.pol)]):
-                m += 1
-                inst = "%s connection-mode pacing when an interval is configured" % L.tag
-                Ej = _job_entry(r, sends[0][0], L)
-                st = [x for jj, x in r.effects() if jj > j and x.kind == "store" and x.target == sub(Ej, "deadline")]
-                d = affine_diff(st[0].value, TIME) if st else None
-                later = [i for (i, _) in sends if i > j and not _same_iter(r, j, i)]
-                if later:
-                    ctx.violated(rule, L.job, inst, "a second packet follows without waiting for the configured interval", r.recs[later[0]].ev.node)
-                elif d is None or d != ({CMI: 1}, 0):
-                    ctx.violated(rule, L.job, inst, "paced packet re-armed at %s" % (pretty(st[0].value) if st else None), rec.ev.node)
-                else:
-                    ctx.holds(rule, inst)
+        js = [j for j, rec in enumerate(r.recs) if rec.cond is not None and (mk_cmp("==", CMI, ("c", None)), False) in lits([(rec.cond, rec.pol)])]
+        if js:
+            j = js[0]
+            m += 1
+            inst = "%s connection-mode pacing when an interval is configured" % L.tag
+            Ej = _job_entry(r, sends[0][0], L)
+            st = [x for jj, x in r.effects() if x.kind == "store" and x.target == sub(Ej, "deadline") and _same_iter(r, j, jj)]
+            ds = [affine_diff(x.value, TIME) for x in st]
+            later = [i for (i, _) in sends if i > j and not _same_iter(r, j, i)]
+            if later:
+                ctx.violated(rule, L.job, inst, "a second packet follows without waiting for the configured interval", r.recs[later[0]].ev.node)
+            elif not any(d is not None and d == ({CMI: 1}, 0) for d in ds):
+                ctx.violated(rule, L.job, inst, "paced packet re-armed at %s" % ([pretty(x.value) for x in st] or None), r.recs[j].ev.node)
+            else:
+                ctx.holds(rule, inst)
     if m == 0:
         ctx.violated(rule, L.job, "%s connection-mode pacing" % L.tag, "the configured minimum DT interval is not honoured by the burst loop", L.job.node)
